@@ -43,9 +43,9 @@ def ReprCtx.compactType (c : ReprCtx) (k : Kind) : Int :=
 
 /-- number of status slots of the sorted kinds before `k` -/
 def ReprCtx.statesBefore (c : ReprCtx) (k : Kind) : Nat :=
-  ((c.sortedKinds.takeWhile fun x => x != k).map Kind.numStates).foldl (· + ·) 0
+  ((c.sortedKinds.takeWhile fun x => x != k).map Kind.numStates).sum
 
-def ReprCtx.totalStates (c : ReprCtx) : Nat := (c.sortedKinds.map Kind.numStates).foldl (· + ·) 0
+def ReprCtx.totalStates (c : ReprCtx) : Nat := (c.sortedKinds.map Kind.numStates).sum
 
 def ReprCtx.compactState (c : ReprCtx) (k : Kind) (j : Nat) : Int :=
   if c.sortedKinds.contains k && decide (j < k.numStates) then
